@@ -24,7 +24,8 @@ from ..symx import L, assume, choose, integer, real
 # exact rotations (un-normalised rational quaternions): identity, yaws, and two general 3-D rotations
 ROTS = {"id": (1, 0, 0, 0), "yaw_3_4_5": (2, 0, 0, 1), "yaw90": (1, 0, 0, 1), "yaw_neg": (3, 0, 0, -1),
         "yaw180": (0, 0, 0, 1), "tilt": (5, 1, 0, 2), "general": (1, 2, -1, 3)}
-CATEGORIES = ["car", "pedestrian", "bicycle", "animal", "vehicle.car", "Truck"]  # inside and outside the label table
+CATEGORIES = ["car", "pedestrian", "vehicle.car", "Truck", "vehicle.tram", "unicorn"]  # the last two: outside the label table
+OTHERS = ["vehicle.tram", "car", "unicorn"]  # fixed categories of the instances whose category is not symbolic
 LEVELS = ["full", "most", "partial", "none", "v40-60", "v80-100"]
 ATTRS = ["vehicle_state.parked", "pedestrian_state.standing"]
 
@@ -145,7 +146,7 @@ def build_dataset(tag, presence, sym, ego_rots, ann_rots, with_camera, with_visi
                                      "width": 100, "height": 100})
     anns = {}
     for i in range(n_inst):
-        cat = choose(f"{tag}inst{i}_category", CATEGORIES) if (sym and sym_tags and (i == 0 or sym_tags == 2)) else CATEGORIES[(i + len(tag)) % len(CATEGORIES)]
+        cat = choose(f"{tag}inst{i}_category", CATEGORIES) if (sym and sym_tags and (i == 0 or sym_tags == 2)) else OTHERS[(i + 2) % len(OTHERS)]
         T["instance"].append({"token": f"inst{i}", "category_token": f"cat_{cat}", "nbr_annotations": sum(presence[i]),
                               "first_annotation_token": "", "last_annotation_token": ""})
         prev = ""
